@@ -651,7 +651,19 @@ func mutate(r *rand.Rand, d []byte) []byte {
 	if len(d) == 0 {
 		return d
 	}
-	switch r.Intn(7) {
+	switch r.Intn(8) {
+	case 7: // a sample length that wraps 32-bit offset arithmetic back onto (or near) its own header, with a large announced sample count
+		so := 28 // first sample header: after version, address type, 4-octet agent address, sub-agent, sequence, uptime, count
+		if len(d) > 8 && d[7] == 2 {
+			so = 40
+		}
+		if so+8 <= len(d) {
+			copy(d[so-4:], sfBe32([]uint32{1000, 50000, 300000}[r.Intn(3)]))
+			copy(d[so+4:], sfBe32(uint32(0x100000000-8-4*int64(r.Intn(4)))))
+			if r.Intn(2) == 0 { // an unknown / enterprise sample type: the length is all the decoder has
+				copy(d[so:], sfBe32([]uint32{5, 0x1000 | 1, 0xfffff001}[r.Intn(3)]))
+			}
+		}
 	case 0:
 		return d[:r.Intn(len(d)+1)]
 	case 1:
